@@ -212,8 +212,10 @@ fn quoted_after(msg: &str, marker: &str) -> Option<String> {
 }
 
 pub fn classify_parse_error(msg: &str) -> Value {
+    // `kind`, `file` and `line` are read off the wording where it is recognised; the message itself always travels along, so
+    // that a reworded error can still be matched by the file path it names (wording is not an observable of any property)
     let file = quoted_after(msg, "Failed to parse file \"").or_else(|| quoted_after(msg, "Failed to read file \""));
-    if msg.contains("is not closed") {
+    let mut v = if msg.contains("is not closed") {
         json!({"file": file, "kind": "unclosed", "line": first_number_after(msg, "Block at line ")})
     } else if msg.contains("Unexpected closed block") {
         json!({"file": file, "kind": "unexpected-close", "line": first_number_after(msg, "Unexpected closed block at line ")})
@@ -224,8 +226,10 @@ pub fn classify_parse_error(msg: &str) -> Value {
     } else if msg.contains("Target without source") {
         json!({"kind": "diff-target-without-source"})
     } else {
-        json!({"kind": "other", "msg": msg})
-    }
+        json!({"kind": "other"})
+    };
+    v["msg"] = json!(msg);
+    v
 }
 
 pub fn classify_run_error(msg: &str) -> &'static str {
